@@ -73,7 +73,7 @@ def constants(tier):
         "TinyVals": "{-1, 4}" if quick else "{-1, 0, 4}",
         "Factors": "{-4, -3, -1, 1, 2, 4}" if quick else "{-7, -4, -3, -1, 1, 2, 4, 5}",
         "CompFactors": "{-1, 3}" if quick else "{-4, -1, 2, 3}",
-        "IdxDurs": "{1, 2, 3, 4, 7}" if quick else "{1, 2, 3, 4, 5, 7, 12}",
+        "IdxDurs": "{1, 2, 3, 4, 7}" if quick else "{1, 2, 3, 4, 5, 7, 12, 20}",
         "NewDurs": "{1, 2, 3, 4, 7, 12, 13}" if quick else "{1, 2, 3, 4, 5, 7, 12, 13, 16, 31, 50}",
         "InterpDurs": "{2, 3, 4, 5, 7, 9, 13, 25}" if quick else "{1, 2, 3, 4, 5, 6, 7, 9, 13, 25, 37, 100}",
         "InterpVals": "{-2, 0, 3}" if quick else "{-5, -2, 0, 3}",
@@ -81,19 +81,19 @@ def constants(tier):
         "InterpNewDurs": "{0, 5, 13}" if quick else "{0, 2, 5, 13, 40}",
         "TimeSets": "{<<0, 12>>, <<0, 6, 12>>, <<0, 3, 12>>, <<3, 9>>, <<0, 4, 8, 12>>, <<2, 12>>, "
                     "<<0, 1, 11, 12>>" + ("" if quick else ", <<0, 5>>, <<1, 6, 7>>, <<0, 2, 7, 9, 12>>") + "}",
-        "AllDurMax": "40" if quick else "200",
+        "AllDurMax": "64" if quick else "400",
         "DurVariants": "3",
         "PhaseUnits": "-9..17" if quick else "-25..33",
         "PpsUnits": "{-3, 0, 5, 8}" if quick else "{-17, -8, -3, 0, 5, 8, 11}",
         "PhaseSpecial": '{"tiny_negative", "tiny_positive", "below_2pi", "above_2pi", "huge", "huge_negative", '
                         '"minus_2pi", "minus_zero"}',
         "ArbVals": "{-30, 0, 7, 50}" if quick else "{-30, -4, 0, 7, 50}",
-        "ArbMaxLen": "4" if quick else "5",
-        "WinDurs": "(1..12) \\cup {25, 40, 101, 400}" if quick else "(1..40) \\cup {101, 400, 1001, 2500}",
+        "ArbMaxLen": "4" if quick else "6",
+        "WinDurs": "(1..16) \\cup {25, 40, 101, 400}" if quick else "(1..64) \\cup {101, 400, 1001, 2500}",
         "WinAreas": "{-13, -4, 1, 4, 25}" if quick else "{-50, -13, -4, -1, 1, 4, 13, 25}",
         "Betas": "{0, 2, 14, 40}" if quick else "{0, 1, 2, 5, 14, 25, 40}",
-        "MaxVals": "{1, 2, 3, 5, 8, 10, 13, 17, 25, 40, 63, 100}" if quick else "(1..30) \\cup {40, 50, 63, 80, 100, 160, 250, 400}",
-        "MaxAreas": "{1, 2, 3, 5, 7, 10, 16, 25, 50, 101}" if quick else "(1..20) \\cup {25, 32, 40, 50, 64, 101, 150, 201}",
+        "MaxVals": "{1, 2, 3, 5, 7, 8, 10, 13, 17, 21, 25, 40, 63, 100, 250}" if quick else "(1..50) \\cup {63, 80, 100, 127, 160, 250, 400}",
+        "MaxAreas": "{1, 2, 3, 5, 7, 10, 13, 16, 25, 50, 101}" if quick else "(1..32) \\cup {40, 50, 64, 77, 101, 150, 201}",
         "MaxDur": "3000" if quick else "6000",
     }
     return c
@@ -532,6 +532,12 @@ def f_win(r, C):
     sn = C.finite(-w, {**det, "op": "neg"}, d)
     if sn is not None:
         C.ok(close(sn, -s, atol=1e-12), {"clause": "negate", "cls": name}, det)
+    # equality agrees with sample-wise closeness (area != 0 on this lattice, so w*2 differs from w by
+    # a factor 2 at its peak: far outside the isclose band)
+    same = CustomWaveform(s * (1 + 1e-13))
+    C.ok((w == same) and (same == w) and not (w == w * 2) and not (w == -w)
+         and not (w == CustomWaveform(np.append(s, 0.0))),
+         {"clause": "equality", "cls": name}, det)
     for nd in (d + 3, max(1, d - 1), 2 * d + 1):
         w2 = w.change_duration(nd)
         s2 = C.finite(w2, {**det, "nd": nd}, nd)
